@@ -469,6 +469,12 @@ func (handler *prewrite1BatchReqHandler) handleRegionErr(regionErr *errorpb.Erro
 	if same {
 		return true, nil
 	}
+	if (handler.committer.isAsyncCommit() || handler.committer.isOnePC()) && handler.sender.GetRPCError() != nil && atomic.LoadUint32(&handler.committer.prewriteCancelled) == 0 {
+		// An earlier attempt of this request got no response and may have taken effect. The mutations are sent again
+		// as new batches below; if one of them fails, the prewrite is cancelled (and 1PC may be given up), which would
+		// hide from drop that the result of this transaction is undetermined.
+		handler.committer.setUndeterminedErr(handler.sender.GetRPCError())
+	}
 	err = handler.committer.doActionOnMutations(handler.bo, actionPrewrite{true, handler.action.isInternal, handler.action.hasRpcRetries}, handler.batch.mutations)
 	return false, err
 }
